@@ -1,0 +1,14 @@
+//go:build verif
+
+// Contracts for the ha-proxy preamble parser, read by /verif (tqv). Comment-only.
+package proxy
+
+// crypter.read only uses the error result of Write (a malformed preamble closes the
+// connection); the parsed addresses are not used yet.
+//@ func NewHeader(client net.Addr, remote net.Addr) (h *Header)
+//@   ensures h != nil && fresh(h)
+
+//@ func (h *Header) Write(b []byte) (n int, err error)
+//@   unverified string splitting (bytes.Contains / strings.Split); only the error result is used by the reader
+//@   requires h != nil
+//@   modifies h.client, h.remote
